@@ -406,6 +406,56 @@ Definition pretty_cat_of_ptr (c : option qstr) : option qstr :=
 Definition pretty_seq_raw_c (colorize : bool) (maxw : Z) (cw : Z) (l : list (mtype * option qstr * qstr)) : option (list qstr) :=
   pretty_seq_c colorize maxw cw (map (fun x => (fst (fst x), pretty_cat_of_ptr (snd (fst x)), snd x)) l).
 
+(* ---- the formatter chain of the one-line configure(pipeline, path, ...) ----------------------------
+   PrettyFormatterPtr::create(src_cfg_colorize) (default column limit) -> console sink -> a FunctionFormatter that
+   removes every match of  ESC [ <params>* <final>  from the formatted text -> file sink.  [strip_sgr] is
+   QString::remove(QRegularExpression) for that expression: ONE left-to-right pass over the text, leftmost match
+   first, the parameter run greedy (no back-tracking is possible: the final byte is not a parameter), the scan
+   resumes behind a removed match (text that only becomes a colour code by a removal stays), an introducer that is
+   not completed by the final byte is kept as it is - in particular an ESC [ with no final byte anywhere behind it.
+   (ESC, [, the parameters and the final byte are ASCII: the scan is the same on code units and on code points.)
+   Structural recursion on the text: the state is what has been read of a possible match. *)
+Definition is_sgr_param (c : N) : bool := existsb (N.eqb c) src_sgr_params.
+Inductive sgr_state := SgN | SgE | SgP (rp : qstr).      (* nothing pending | ESC | ESC [ params (reversed) *)
+Definition sgr_pending (st : sgr_state) : qstr :=
+  match st with SgN => [] | SgE => [src_sgr_esc] | SgP rp => src_sgr_esc :: src_sgr_open :: rev rp end.
+Fixpoint strip_go (st : sgr_state) (s : qstr) : qstr :=
+  match s with
+  | [] => sgr_pending st
+  | c :: r =>
+    match st with
+    | SgN => if (c =? src_sgr_esc)%N then strip_go SgE r else c :: strip_go SgN r
+    | SgE => if (c =? src_sgr_open)%N then strip_go (SgP []) r
+             else if (c =? src_sgr_esc)%N then src_sgr_esc :: strip_go SgE r
+             else src_sgr_esc :: c :: strip_go SgN r
+    | SgP rp => if is_sgr_param c then strip_go (SgP (c :: rp)) r
+                else if (c =? src_sgr_final)%N then strip_go SgN r
+                else if (c =? src_sgr_esc)%N then sgr_pending st ++ strip_go SgE r
+                else sgr_pending st ++ c :: strip_go SgN r
+    end
+  end.
+(* QRegularExpression validates the subject first: a text that is not well-formed UTF-16 (a lone surrogate - message
+   texts are arbitrary code units) matches nothing, and QString::remove leaves it as it is, colour codes included *)
+Definition is_hi_surrogate (c : N) : bool := ((55296 <=? c) && (c <=? 56319))%N.
+Definition is_lo_surrogate (c : N) : bool := ((56320 <=? c) && (c <=? 57343))%N.
+Fixpoint utf16_ok (s : qstr) : bool :=
+  match s with
+  | [] => true
+  | c :: r => if is_hi_surrogate c then match r with d :: r' => is_lo_surrogate d && utf16_ok r' | [] => false end
+              else if is_lo_surrogate c then false else utf16_ok r
+  end.
+Definition strip_sgr (s : qstr) : qstr := if utf16_ok s then strip_go SgN s else s.
+(* what reaches the file sink after "<time> " (the time text holds no ESC), and the new column width *)
+Definition configure_c (cw : Z) (t : mtype) (cat : option qstr) (msg : qstr) : option (qstr * Z) :=
+  do o <- pretty_c src_cfg_colorize src_pretty_default_maxw cw t cat msg; Some (strip_sgr (fst o), snd o).
+Fixpoint configure_seq_c (cw : Z) (l : list (mtype * option qstr * qstr)) : option (list qstr) :=
+  match l with
+  | [] => Some []
+  | (t, c, m) :: r => do o <- configure_c cw t c m; do rest <- configure_seq_c (snd o) r; Some (fst o :: rest)
+  end.
+Definition configure_seq_raw_c (cw : Z) (l : list (mtype * option qstr * qstr)) : option (list qstr) :=
+  configure_seq_c cw (map (fun x => (fst (fst x), pretty_cat_of_ptr (snd (fst x)), snd x)) l).
+
 (* ---- oracles evaluated on the implementation's output --------------------------------------- *)
 Definition prop_c14_pattern_b (p : qstr) (m : menv) (impl_out : qstr) : bool :=
   match parse_pattern_c p with
